@@ -49,12 +49,14 @@ pub fn run(out: &mut Out, thorough: bool, seed: u64, _extra: &[String]) {
     for pi in 0..programs {
         let scheme = [SchemeType::BFV, SchemeType::BGV, SchemeType::CKKS][pi % 3];
         let lg = r.range(2, 4) as usize; let n = 1usize << lg;
-        let bits: Vec<usize> = (0..r.range(3, 4) as usize).map(|_| *r.pick(&[40usize, 50, 59])).collect();
+        let fam1 = scheme != SchemeType::CKKS && (pi / 3) % 2 == 1;     // family with a prime that is 1 mod t (three data levels)
+        let bits: Vec<usize> = (0..(if fam1 { 4 } else { r.range(3, 4) as usize })).map(|_| *r.pick(&[40usize, 50, 59])).collect();
         let qs = match pick_primes(&mut r, n, &bits) { Some(v) => v, None => continue };
         let t = if scheme == SchemeType::CKKS { 0 } else { pick_plain(&mut r, n, 0, &qs) };
         // every other BFV/BGV parameter set has a middle prime that is 1 modulo t (dropping it leaves the BGV correction factor unchanged)
         let mut qs = qs;
-        if scheme != SchemeType::CKKS && (pi / 3) % 2 == 1 && qs.len() >= 3 { if let Some(p) = prime_one_mod(n, t, 50, &qs) { let mid = qs.len() - 2; qs[mid] = p; } }
+        // (the prime dropped SECOND: the source then already carries a correction factor != 1 while q^-1 mod t = 1 for this step)
+        if fam1 && qs.len() >= 4 { if let Some(p) = prime_one_mod(n, t, 50, &qs) { let mid = qs.len() - 3; qs[mid] = p; } }
         let s = match make(scheme, n, &qs, t, true, None) { Some(s) => s, None => continue };
         let ev = &s.evaluator;
         let relin = s.keygen.create_relin_keys(false);
